@@ -198,6 +198,16 @@ Qed.
 Lemma persisted_roundtrip n : node_ok n -> dec_persisted (enc_persisted n) = Some n.
 Proof. intros H. unfold enc_persisted, dec_persisted. cbn. now apply node_roundtrip. Qed.
 
+Lemma export_roundtrip d : node_ok (strip_sys s_SYS d) -> dec_persisted (enc_export d) = Some (strip_sys s_SYS d).
+Proof.
+  intros H. unfold enc_export.
+  destruct (strip_sys s_SYS d) as [v cs] eqn:E. cbn [nkids nval].
+  destruct cs as [|c cs]; [|rewrite <- E in *; now apply persisted_roundtrip].
+  destruct (nkids d) as [|k ks]; [rewrite <- E in *; now apply persisted_roundtrip|].
+  destruct v as [e|]; [rewrite <- E in *; now apply persisted_roundtrip|].
+  reflexivity.
+Qed.
+
 Lemma gglw_roundtrip gg lw : dec_gglw (enc_gglw gg lw) = Some (gg, lw).
 Proof.
   unfold enc_gglw, dec_gglw. cbn.
@@ -214,7 +224,7 @@ Theorem load_after_flush s d :
 Proof.
   intros Hok d'. destruct (flush_completes s d) as (_ & Ht & Hs & Hg). fold d' in Ht, Hs, Hg.
   unfold load_v3. rewrite Ht, Hs, Hg. unfold snapshot. cbn [fst snd bind].
-  now rewrite (persisted_roundtrip _ Hok), gglw_roundtrip.
+  now rewrite (export_roundtrip _ Hok), gglw_roundtrip.
 Qed.
 
 (* and after a crash before the flip, the next start still reads the slot that was active before *)
